@@ -71,7 +71,7 @@ namespace C13
     static auto ff() { return Analytic::create_lambda_function_scalar_3d([](double x, double y, double z) {return 7.0 + 16.0*x - 8.0*y*y + 4.0*z;}); }
   };
 
-  template<typename Shape_, template<typename> class SpaceT_>
+  template<typename Shape_, template<typename> class SpaceT_, template<typename> class AltSpaceT_>
   int run(const Dist::Comm& comm, SimpleArgParser& args, bool do_solve)
   {
     typedef Geometry::ConformalMesh<Shape_> MeshType;
@@ -86,6 +86,9 @@ namespace C13
 
     DomainControlType domain(comm, true);
     domain.parse_args(args);
+    const bool use_splitter = args.check("splitter") >= 0;   // base levels can only be kept for <= 2 layers
+    if(use_splitter)
+      domain.keep_base_levels();
     domain.set_desired_levels(args.query("level")->second);
     domain.create(args.query("mesh")->second);
     domain.add_trafo_mesh_part_charts();
@@ -284,19 +287,46 @@ namespace C13
       }
     };
     {
+      // the third field lives in a different finite element space (Q2 if the main space is Q1 and vice versa), so the
+      // three gates, mirrors and frequency vectors of the tuple are all different
+      typedef AltSpaceT_<TrafoType> AltSpaceType;
+      AltSpaceType alt_space(the_domain_level.trafo);
+      typename SystemLevelType::SystemGate gate_alt;
+      Control::Asm::asm_gate(domain.at(0), alt_space, gate_alt, true);
+      const Index nalt = gate_alt.get_num_local_dofs();
+      out.put("x_alt_ndofs", gate_alt.get_num_global_dofs());
       Global::Gate<BVec2, MirrorType> gate_b;
       gate_b.convert(gate, BVec2(nloc));
       Global::Gate<TVec3, TMir3> gate_3;
-      Control::Asm::build_gate_tuple(gate_3, gate_b, gate, gate);
+      Control::Asm::build_gate_tuple(gate_3, gate_b, gate, gate_alt);
       LocalSystemVector y_type0(nloc);
       mat_trap.local().apply(y_type0, vx.local());
-      TVec3 tv = mk3(nloc);
-      TVec3 tw = mk3(nloc);
-      fill3(tv, b_type0, b_type0, y_type0, -3.0);          // type-0 data
-      fill3(tw, vw1.local(), vw2.local(), vx.local(), 1.0); // type-1 weights
+      LocalSystemVector alt_b(nalt, 0.0), alt_w(nalt), alt_x(nalt);
+      Assembly::assemble_force_function_vector(the_domain_level.domain_asm, alt_b, ff, alt_space, "trapezoidal");
+      Assembly::Interpolator::project(alt_w, fw2, alt_space);
+      Assembly::Interpolator::project(alt_x, fx, alt_space);
+      TVec3 tv(BVec2(nloc), y_type0.clone(), alt_b.clone());
+      TVec3 tw(BVec2(nloc), vx.local().clone(), alt_w.clone());
+      {
+        auto* e0 = tv.template at<0>().elements();
+        auto* f0 = tw.template at<0>().elements();
+        for(Index i(0); i < nloc; ++i)
+        {
+          e0[i][0] = b_type0.elements()[i]; e0[i][1] = -3.0 * b_type0.elements()[i];
+          f0[i][0] = vw1.local().elements()[i]; f0[i][1] = vw2.local().elements()[i];
+        }
+      }
       gate_3.sync_0(tv);
       out.put("x_tup3_dot", gate_3.dot(tv, tw));
       out.put("x_tup3_ndofs", gate_3.get_num_global_dofs());
+      // dot products of consistent vectors: every field weighted with the frequencies of its own gate
+      TVec3 tx(BVec2(nloc), vx.local().clone(), alt_x.clone());
+      {
+        auto* e0 = tx.template at<0>().elements();
+        for(Index i(0); i < nloc; ++i) { e0[i][0] = vx.local().elements()[i]; e0[i][1] = vw1.local().elements()[i]; }
+      }
+      out.put("x_tup3_xw", gate_3.dot(tx, tw));
+      out.put("x_tup3_xx", gate_3.dot(tx, tx));
       TVec3 tc = tw.clone();
       gate_3.sync_1(tc);
       tc.axpy(tw, -1.0);
@@ -373,6 +403,127 @@ namespace C13
       out.put("x_mux3_split_diff", w[0]);
       out.put("x_mux3_join_diff", w[1]);
       out.put("p_mux3_used", mu);
+    }
+
+    // more of the Global API on exact data: reductions, Global::Vector arithmetic, type conversion, diag / lump
+    {
+      // (Global::Vector::max_element() / min_element() call a non-existing Gate member; the _async variants work)
+      out.put("x_vmax", vx.max_element_async().wait());
+      out.put("x_vmin", vx.min_element_async().wait());
+      out.put("x_vminabs", vx.min_abs_element());
+      // Gate::sum / norm2 of one scalar per rank
+      LocalSystemVector ones(nloc, 1.0);
+      out.put("t_gate_sum_freq", gate.sum(gate.get_freqs().dot(ones)));          // = number of global DOFs
+      out.put("t_gate_norm2", gate.norm2(Math::sqrt(gate.get_freqs().triple_dot(vx.local(), vx.local()))));   // = ||x||
+      out.put("t_gate_norm2_ref", vx.norm2());
+      out.put("x_gate_max", gate.max(vx.local().max_element()));
+      out.put("x_gate_min", gate.min(vx.local().min_element()));
+      // copy / axpy / scale / component_product keep a type-1 vector type-1
+      vt.copy(vx);
+      vt.axpy(vw1, -2.0);
+      vt.scale(vt, 0.5);
+      out.put("x_vops_w2", vt.dot(vw2));
+      GlobalSystemVector vu = vx.clone();
+      vu.component_product(vt, vw2);
+      out.put("x_cprod_w1", vu.dot(vw1));
+      // from_1_to_0 followed by sync_0 is the identity on type-1 vectors
+      vt.copy(vx);
+      vt.from_1_to_0();
+      vt.sync_0();
+      vt.axpy(vx, -1.0);
+      out.put("x_f10_diff", vt.max_abs_element());
+      // extract_diag / lump_rows (type-0 local result + sync_0) of the dyadic matrix
+      GlobalSystemVector vd = vx.clone();
+      mat_trap.extract_diag(vd, true);
+      out.put("x_diag_w1", vd.dot(vw1));
+      mat_trap.lump_rows(vd, true);
+      out.put("x_lump_w1", vd.dot(vw1));
+      out.put("x_lump_max", vd.max_abs_element());
+    }
+
+    // Global::Splitter (base splitter) on the finest level: join gives the unpartitioned vector on the root, split the
+    // restriction of an unpartitioned vector to every patch
+    {
+      double join_diff = 0.0, split_diff = 0.0;
+      out.put("p_spl_used", Index(use_splitter ? 1 : 0));
+      if(use_splitter)
+      {
+      the_system_level.assemble_base_splitter(domain.at(0));
+      auto& spl = the_system_level.base_splitter_sys;
+      LocalSystemVector base = spl.join(vx);
+      LocalSystemVector base_ref;
+      if(comm.size() > 1 && comm.rank() == 0)
+      {
+        const auto& space_b = domain.at(0).level_b().space;
+        base_ref = LocalSystemVector(space_b.get_num_dofs());
+        Assembly::Interpolator::project(base_ref, fx, space_b);
+        XASSERT(base.size() == base_ref.size());
+        out.put("p_spl_base_ndofs", base.size());
+        LocalSystemVector d = base.clone();
+        d.axpy(base_ref, -1.0);
+        join_diff = d.max_abs_element();
+      }
+      else
+      {
+        out.put("p_spl_base_ndofs", Index(0));
+        if(comm.size() == 1) base_ref = vx.local().clone();
+      }
+      vt.format(-7.0);
+      spl.split(vt, base_ref);
+      vt.axpy(vx, -1.0);
+      split_diff = vt.max_abs_element();
+      }
+      else
+        out.put("p_spl_base_ndofs", Index(0));
+      double v[2] = {join_diff, split_diff}, w[2] = {0.0, 0.0};
+      comm.allreduce(v, w, std::size_t(2), Dist::op_max);
+      out.put("x_spl_join_diff", w[0]);
+      out.put("x_spl_split_diff", w[1]);
+    }
+
+    // Global::Transfer::prol / rest (+ prol_recv / rest_send on ghost processes) on every level pair, i.e. through the
+    // muxer wherever the process layer changes: prolongation reproduces the nodal interpolant of a (multi)linear
+    // function, restriction is its adjoint with respect to Gate::dot
+    {
+      double prol_diff = 0.0, rest_dual = 0.0;
+      Index n_tr = 0u;
+      for(Index i(0); (i < domain.size_physical()) && ((i+1) < domain.size_virtual()); ++i)
+      {
+        SystemLevelType& lvl_f = *system_levels.at(i);
+        GlobalSystemVector xf = lvl_f.matrix_sys.create_vector_r();
+        GlobalSystemVector pf = xf.clone(), df = xf.clone();
+        Assembly::Interpolator::project(xf.local(), fx, domain.at(i)->space);
+        df.format();
+        Assembly::assemble_force_function_vector(domain.at(i)->domain_asm, df.local(), ff, domain.at(i)->space, "trapezoidal");
+        df.sync_0();
+        pf.format(-7.0);
+        const double fine_pair = df.dot(xf);
+        ++n_tr;
+        if((i+1) < domain.size_physical())
+        {
+          SystemLevelType& lvl_c = *system_levels.at(i+1);
+          GlobalSystemVector xc = lvl_c.matrix_sys.create_vector_r();
+          GlobalSystemVector dc = xc.clone();
+          Assembly::Interpolator::project(xc.local(), fx, domain.at(i+1)->space);
+          lvl_f.transfer_sys.prol(pf, xc);
+          dc.format(-7.0);
+          lvl_f.transfer_sys.rest(df, dc);
+          const double coarse_pair = dc.dot(xc);
+          rest_dual = Math::max(rest_dual, Math::abs(coarse_pair - fine_pair) / Math::abs(fine_pair));
+        }
+        else
+        {
+          lvl_f.transfer_sys.prol_recv(pf);
+          lvl_f.transfer_sys.rest_send(df);
+        }
+        pf.axpy(xf, -1.0);
+        prol_diff = Math::max(prol_diff, double(pf.max_abs_element() / xf.max_abs_element()));
+      }
+      double v[2] = {prol_diff, rest_dual}, w[2] = {0.0, 0.0};
+      comm.allreduce(v, w, std::size_t(2), Dist::op_max);
+      out.put("z_prol_diff", w[0]);
+      out.put("z_rest_dual", w[1]);
+      out.put("p_transfers", n_tr);
     }
 
     // ---------------------------------------------------------------------------------------------------------------
